@@ -574,3 +574,23 @@ def check_C19():
                    "car inspect --full and, when its roots are among its blocks, car verify" % (2 if tier() == "quick" else 3, pm),
            "samples": rep["samples"] or [{}], "counters": rep["counters"], "model_cases": em["distinct"]}
     finish("C19", "exploration", cov, rep["violations"] or [], inconclusive=rep.get("inconclusive") or None)
+
+
+def check_C15():
+    n = 4
+    vh = build_harness()
+    model = run_tlc("MCTraversal", "Traversal_%d.cfg" % n, timeout=1200)
+    tlc_must_pass(model, "Traversal.tla OutHasNoRepeats / OnceMeansNoRepeatedLoads / BudgetRespected")
+    size = run_tlc("MCTraversal", "Traversal_3_size.cfg", timeout=600)   # SizeAgreement fails in the model when loads repeat (documented)
+    em = run_tlc("MCTraversal", "Traversal_%d_emit.cfg" % n, timeout=1200)
+    tlc_must_pass(em, "Traversal.tla emitter")
+    rc, rep = harness_run(vh, ["traversal-replay", em["out"], "@REPORT"], timeout=3000)
+    cov = merge_cov(model, em, rep, {
+        "rule": "every DAG over 4 nodes (ordered links to later nodes only, <= 3 links at the root and <= 2 elsewhere, repeats and shared subtrees, dag-cbor inner nodes and raw leaves) x selector "
+                "{explore-all-recursive, depth-limited 1..3} x link-visit-once on/off x link budget {none, 1, 3}, with paddings and index codec / none varied per case; each through v2 NewSelectiveWriter "
+                "(both passes recorded), TraverseV1, TraverseToFile, root-module SelectiveCar Write / Prepare (Size, Cids) / Dump with block callbacks; the observed load sequence of the wrapped link system "
+                "is the oracle for 'exactly the loaded blocks, once, first-visit order'; sizes, returned counts, Dump==Write, callback offsets/sizes and the index are checked; the model's Loads is compared "
+                "with the observed loads (drift)",
+        "exhaustive": True, "explanation": "TLC evaluates the DFS model on all bounded DAGs; SizeAgreement (counted = written) is violated in the model exactly when a load repeats: %s" % size.get("violated")})
+    finish("C15", "model_checking", cov, rep["violations"] or [], inconclusive=rep.get("inconclusive") or None, drift=rep.get("model_drift") or None,
+           assumptions=["go-ipld-prime's selector semantics beyond explore-all / depth-limited recursion are not modelled", "a writer that returns an error early (budget exceeded) has not output a CAR"])
